@@ -481,6 +481,12 @@ class DiffXReader(object):
             raise DiffXParseError('Expected content after the header',
                                   linenum=self._linenum)
 
+        if indent is not None and (not isinstance(indent, int) or
+                                   indent < 0):
+            raise DiffXParseError(
+                'Expected the indent option to be a non-negative integer',
+                linenum=self._linenum)
+
         # First, determine the line endings that we're going to be working
         # with.
         if line_endings:
@@ -508,7 +514,7 @@ class DiffXReader(object):
             # or due to some error the indentation on some line may be
             # wrong. Be careful to strip only the spaces, up to the specified
             # indentation level.
-            indent_re = re.compile(br'^ {1,%d}' % indent)
+            indent_re = re.compile(br'^ {1,%d}' % min(indent, len(content)))
             content = b''.join(
                 indent_re.sub(b'', _line)
                 for _line in lines
